@@ -4,12 +4,13 @@ ROOT = os.path.dirname(os.path.dirname(os.path.abspath(__file__)))
 
 
 def write(pid, tier, seed, level, coverage, assumptions, wall_s, violations):
-    os.makedirs(os.path.join(ROOT, "evidence"), exist_ok=True)
+    evdir = os.environ.get("VERIF_EVIDENCE_DIR") or os.path.join(ROOT, "evidence")
+    os.makedirs(evdir, exist_ok=True)
     ev = {
         "property_id": pid, "tier": tier, "seed": int(seed), "level": level,
         "coverage": coverage, "assumptions": assumptions, "wall_s": round(wall_s, 2), "violations": int(violations),
     }
-    p = os.path.join(ROOT, "evidence", pid + ".json")
+    p = os.path.join(evdir, pid + ".json")
     tmp = p + ".tmp"
     with open(tmp, "w") as f:
         json.dump(ev, f, indent=1)
